@@ -8,6 +8,8 @@ From JB Require Import RenderWalk.
 From JB Require Import SelWalk.
 From JB Require Import CastWalk.
 From JB Require Import PathSafe.
+From JB Require Import SerdeWalk.
+From JB Require Import KeysWalk.
 Extraction Language OCaml.
 Extraction "model.ml"
   to_vec write_to_vec enc parse_jsonb is_jsonb assoc_insert
@@ -28,6 +30,8 @@ Extraction "model.ml"
   select_m sel_exists_m sel_predicate_match_m get_by_path_m get_by_path_first_m get_by_path_array_m path_exists_m path_match_m
   select_w sel_exists_w sel_predicate_match_w get_by_path_w get_by_path_first_w get_by_path_array_w path_exists_w path_match_w
   to_serde_json_m to_serde_json_object_m value_to_serde serde_to_value
+  to_serde_json_w to_serde_json_object_w
+  exists_all_keys_w exists_any_keys_w
   parse_lazy_value lazy_to_vec lazy_array_length lazy_to_value
   parse_json_path parse_key_paths show_json_path show_key_paths float_placeholder
   safe_path leaf_path no_floats.
